@@ -67,7 +67,7 @@ def run(ctx):
          ("remove_invalid_utf8", []), ("remove_invalid_utf8_base64", []), ("remove_long_lines", ["5"]), ("remove_long_lines", ["-1"]), ("remove_long_lines", ["x"]),
          ("shard", ["--prefix", os.path.join(ctx.tmp, "sh"), "--number", "3"]), ("shard", ["--prefix", os.path.join(ctx.tmp, "sz"), "--number", "0"]),
          ("shard", ["-c", "gzip", os.path.join(ctx.tmp, "a.gz"), os.path.join(ctx.tmp, "b.gz")]), ("shard", ["-c", "lz4", os.path.join(ctx.tmp, "q")]),
-         ("substitute", []), ("subtract_lines", [sub]), ("subtract_lines", [emptyf]), ("vocab", []), ("warc_parallel", ["cat"]), ("warc_parallel", ["-j", "3", "-z", "cat"]),
+         ("substitute", []), ("subtract_lines", [sub]), ("subtract_lines", [emptyf]), ("vocab", []), ("warc_parallel", ["cat"]), ("warc_parallel", ["-j", "3", "-z", "cat"]), ("warc_parallel", ["-j", "0", "cat"]),
          ("process_unicode", ["--lower", "--flatten", "--normalize"]), ("process_unicode", ["-l", "xx", "--flatten"]), ("simple_cleaning", []),
          ("simple_cleaning", ["-f", "2", "--min-chars", "0"]), ("gigaword_unwrap", []), ("truecase", ["--model", model]), ("truecase", ["--model", emptyf]),
          ("apply_case", [emptyf, emptyf, emptyf, emptyf]), ("train_case", [emptyf, emptyf, emptyf])]
@@ -91,6 +91,19 @@ def run(ctx):
             if len(ctx.violations) > 12:
                 return
     ctx.cov["tool_runs_ended_acceptably"] = n_ok
+    # option values at the edge of their range, on an input that is valid for the tool
+    warc = b"".join(b"WARC/1.0\r\nWARC-Type: response\r\nContent-Length: %d\r\n\r\n" % len(b_) + b_ + b"\r\n\r\n" for b_ in (b"ab", b"", b"x" * 5000))
+    for tool, args, data in (("warc_parallel", ["-j", "0", "cat"], warc), ("warc_parallel", ["-j", "1", "cat"], warc), ("warc_parallel", ["-j", "64", "-z", "cat"], warc),
+                             ("shard", ["--prefix", os.path.join(ctx.tmp, "e"), "--number", "1"], b"a\nb\n"), ("remove_long_lines", ["0"], b"\n\nx\n"),
+                             ("foldfilter", ["-w", "1", "cat"], b"ab cd\n"), ("cache", ["-k", "1-", "cat"], b"a\na\n")):
+        st, out, err = pvlib.run_tool([ctx.bin(tool)] + args, data, env=pvlib.san_env(), timeout=20)
+        ctx.count("tool-edge-options", 1, [(tool, tuple(args))])
+        if not diagnosed_ok(st, err):
+            kind = pvlib.san_kind(err) or st
+            pvlib.report_violation(ctx, f"c20-edge:{tool}:{' '.join(args)[-40:]}", {"argv": [tool] + args, "stdin_hex": hx(data)[:4000], "status": st, "kind": str(kind),
+                                   "stderr": err.decode(errors="replace")[-600:]},
+                                   summary=f"{tool} {' '.join(args)} on a valid input: " + ("does not terminate" if st == "HANG" else f"ended with {kind}") +
+                                           " instead of success or a diagnosed error")
     # tools that take their inputs as files: apply_case <alignment> <source> <target> <model>, train_case <alignment> <source> <target>
     giza = (b"# Sentence pair (1) source length 2 target length 2 alignment score : 0.1\nhello World\nNULL ({ }) Hello ({ 1 }) World ({ 2 })\n")
     filesets = [
@@ -106,6 +119,13 @@ def run(ctx):
         ("train_case", "truncated-alignment", [giza[:40], b"Hello World\n", b"hello World\n"]),
         ("train_case", "invalid-utf8", [giza, b"Hello World\n", b"\xff World\n"]),
         ("truecase", "model-with-junk", [b"The (10/12 the\n\n\xff (1/1)\n"]),
+        # one word with many casings (the table grows while the alternatives of one model line are being inserted), and many words
+        ("truecase", "model-60-casings-of-one-word", [b"Word (10/99) " + b" ".join(b"alt%dWord (1/99)" % i for i in range(60)) + b"\nOther (3/3)\n"]),
+        ("truecase", "model-300-words-4-casings", [b"".join(b"Word%d (10/20) word%d (5/20) WORD%d (3/20) wORD%d (2/20)\n" % (i, i, i, i) for i in range(300))]),
+        ("train_case", "position-0-in-a-word-group", [b"# Sentence pair (1) source length 3 target length 3 alignment score : 0.1\nEr kommt heute\nNULL ({ }) er ({ 1 }) kommt ({ 0 }) heute ({ 3 })\n",
+                                                      b"er kommt heute\n", b"Er kommt heute\n"]),
+        ("train_case", "position-too-high", [b"# Sentence pair (1) source length 2 target length 2 alignment score : 0.1\nHello World\nNULL ({ }) Hello ({ 1 }) World ({ 7 })\n",
+                                             b"Hello World\n", b"hello World\n"]),
         ("subtract_lines", "binary-subtrahend", [cps["binary"]]),
         ("commoncrawl_dedupe", "gz-subtrahend", [cps["gz-empty"]]),
     ]
